@@ -29,15 +29,52 @@ RFC = "roughenough::request::nonce_from_rfc_request"
 CLASSIC = "roughenough::request::nonce_from_classic_request"
 
 
-def ok_return_blocks(fn, ev):
-    """Blocks that assign Ok(..) to the return place."""
+class OkReturn(tuple):
+    """(block, statement index, Ok term) plus `extra`: facts that hold exactly when this return yields Ok (for functional returns)"""
+    extra = ()
+
+
+def ok_return_blocks(fn, ev, W=None):
+    """Blocks that assign Ok(..) to the return place.  Also the functional form `opt.filter(|v| pred(v)).map(|v| f(v)).ok_or(err)` returned directly:
+    it is Ok(f(v)) exactly when opt is Some(v) and pred(v) holds; those conditions are attached as `extra` facts."""
     out = []
     for bl in fn.blocks:
         if bl.idx not in fn.reachable():
             continue
         for i, st in enumerate(bl.stmts):
             if fn.is_return_assign(st, "Ok"):
-                out.append((bl.idx, i, ev.rvalue(st["rv"], (bl.idx, i))))
+                out.append(OkReturn((bl.idx, i, ev.rvalue(st["rv"], (bl.idx, i)))))
+        t = bl.term
+        if W is not None and t["k"] == "call" and t.get("dst") and not t["dst"].get("p") and t["dst"]["l"] in fn.return_locals() and \
+                callee_name(t["fn"].get("path", "")) in ("ok_or", "ok_or_else") and "option::Option" in t["fn"].get("path", ""):
+            a = ev.call_args(bl.idx)
+            payload = a[0]          # map(..) is already the closure body applied to the payload
+            extra = []
+            filt = [x for x in values.subterms(payload) if is_call(x) and callee_name(x[1]) == "filter" and "option::Option" in x[1] and len(x[2]) == 2]
+            ok = True
+            for f in filt:
+                opt, clo = f[2]
+                extra.append(("Eq", ("discr", opt), ("int", 1)))
+                if isinstance(clo, tuple) and clo and clo[0] == "closure" and clo[1] in W.prog.fns:
+                    r = ev.apply_closure(clo, [ev.payload_term(opt)])
+                    if r is None:
+                        ok = False
+                    else:
+                        from lib import relational_deep
+                        extra.extend(relational_deep(W, ("eq", r, True)))
+                else:
+                    ok = False
+            if ok:
+                # the payload with `filter(opt, pred)` read as opt's payload
+                def unfilter(x):
+                    if is_call(x) and callee_name(x[1]) == "filter" and "option::Option" in x[1] and len(x[2]) == 2:
+                        return unfilter(x[2][0])
+                    if isinstance(x, tuple):
+                        return tuple(unfilter(y) if isinstance(y, tuple) else y for y in x)
+                    return x
+                o = OkReturn((bl.idx, "term", ("agg", "core::result::Result::Ok", (unfilter(payload),), None)))
+                o.extra = tuple((r[0], unfilter(r[1]) if isinstance(r[1], tuple) else r[1], unfilter(r[2]) if isinstance(r[2], tuple) else r[2]) for r in extra)
+                out.append(o)
     return out
 
 
@@ -84,11 +121,12 @@ def run(ctx):
                     return tuple(subst(x) if isinstance(x, tuple) else x for x in t)
                 return t
             mm = None
-            oks_blocks = ok_return_blocks(cal, cev)
+            oks_blocks = ok_return_blocks(cal, cev, W)
             if not oks_blocks:
                 mm = "no Ok return found in the parser"
-            for (ob, oi, oterm) in oks_blocks:
-                inner = [(r[0], subst(r[1]), subst(r[2]) if isinstance(r[2], tuple) else r[2]) for r in flow.rel_facts_at(CIN, ob)] if oks else []
+            for okr_ in oks_blocks:
+                (ob, oi, oterm) = okr_
+                inner = [(r[0], subst(r[1]), subst(r[2]) if isinstance(r[2], tuple) else r[2]) for r in list(flow.rel_facts_at(CIN, ob)) + list(okr_.extra)] if oks else []
                 # accepted => in range (both directions are covered: a rejecting guard is the complement of the accepting facts)
                 m1 = acceptance_mismatch(here + inner, {"n": N}, grid, lambda n: 1024 <= n <= 1500)
                 if m1 is not None:
@@ -124,10 +162,11 @@ def run(ctx):
         fn = ctx.fn(fnp)
         e = W.ev(fnp)
         FIN = flow.must_facts(fn, e)
-        oks = ok_return_blocks(fn, e)
+        oks = ok_return_blocks(fn, e, W)
         ctx.check("wellformed-gate", "%s/ok-returns-found" % v, len(oks) >= 1, "%d Ok return(s); every one is gated below" % len(oks), "anchor-missing: no Ok return found in %s" % fnp, ctx.loc(fn))
-        for (bb, i, term) in oks:
-            rels = flow.rel_facts_at(FIN, bb)
+        for okr_ in oks:
+            (bb, i, term) = okr_
+            rels = list(flow.rel_facts_at(FIN, bb)) + list(okr_.extra)
             payload = term[2][0]
             nonce_t = payload[2][0] if payload[0] == "agg" else None
             # nonce = to_vec(payload of get_field(msg, NONC)) of the message parsed from the request
@@ -144,6 +183,13 @@ def run(ctx):
                       "nonce length is not restricted to %d bytes: %s" % (want, mm), fn.loc(bb))
             B = Bounds(W, fn, e, FIN)
             nonce_bound[v] = B.upper(ln, bb) if ln else INF
+            if ln and okr_.extra:
+                # functional return: the length fact is part of the conditions under which Ok is produced
+                islen = lambda x: isinstance(x, tuple) and len(x) >= 2 and x[0] == "len" and values.strip_payload(x[1]) == values.strip_payload(nonce_t)
+                ks = [r[2][1] for r in okr_.extra if r[0] == "Eq" and islen(r[1]) and isinstance(r[2], tuple) and r[2][0] == "int"] + \
+                     [r[1][1] for r in okr_.extra if r[0] == "Eq" and islen(r[2]) and isinstance(r[1], tuple) and r[1][0] == "int"]
+                if ks:
+                    nonce_bound[v] = min(nonce_bound[v], max(ks))
             if v == "RfcDraft13":
                 # frame length
                 eqs = [r for r in rels if r[0] == "Eq" and r[1][0] != "discr"]
